@@ -316,7 +316,7 @@ theorem skipN_items : ∀ (items : List ES.ClassItem), items.all lexItem = true 
 theorem clsScan (fl : Flags) : ClsScan fl := by
   intro hv neg items hlex sc rest fuel hf
   obtain ⟨f, rfl⟩ : ∃ f, fuel = f + 1 := ⟨fuel - 1, by omega⟩
-  refine ⟨sc, f, by simp only [printClass, List.length_append, List.length_cons] at hf; omega, ?_, TrEq.refl _⟩
+  refine ⟨sc, f, by simp only [printClass, List.length_append, List.length_cons] at hf; omega, ?_, rfl⟩
   have hskip : skipBracket ((if neg then [0x5E] else []) ++ printClassItems items ++ 0x5D :: rest) = rest := by
     have h1 : SkipN ((if neg then [0x5E] else []) ++ printClassItems items) := by
       apply SkipN.append _ (skipN_items items hlex)
